@@ -387,6 +387,80 @@ def latexVal {C : Type} (conv : Conv C) (overwrite : Bool) (w : World C) (v : Va
     | _ => .error .outsideModel
   else .ok (w, some v)
 
+/-! ### the pool of `LaTeXToPDF.run`: commands that fail, commands that finish later
+
+`LaTeXToPDF.run` launches one process per `.tex` value and keeps it in `self.processes`; before it handles the
+next value it yields the processes that have terminated *with return code 0* (`pop_returned_processes`, lines
+84-107: a non-zero return code drops the value — whatever `verbose` is, which only controls printing), and after
+the last value it waits for the remaining ones in launch order (lines 176-206), again yielding those with return
+code 0.  `Sched` is what the outside world decides for one launch: whether the command succeeds (`ok`: return
+code 0 and the pdf is written) and after how many further polls the process is seen terminated (`fin`). -/
+
+structure Sched where
+  ok : Bool := true
+  fin : Nat := 0
+  deriving Repr, DecidableEq
+
+/-- a process in the pool: the value to yield, its schedule -/
+structure PoolEntry (C : Type) where
+  val : Val C
+  ok : Bool
+  fin : Nat
+
+/-- `pop_returned_processes`: every process is polled once, in launch order; a terminated one leaves the pool and
+is yielded iff its return code is 0 -/
+def popReturned {C : Type} : List (PoolEntry C) → List (PoolEntry C) × List (Val C)
+  | [] => ([], [])
+  | e :: rest =>
+    let r := popReturned rest
+    if e.fin = 0 then (r.1, if e.ok then e.val :: r.2 else r.2)
+    else ({ e with fin := e.fin - 1 } :: r.1, r.2)
+
+/-- the loop body for one incoming value (after the pop): not a `.tex` value: passes; otherwise `latexCore`
+decides; a skipped value is yielded at once; a launched command writes the pdf now iff it succeeds, and joins
+the pool -/
+def latexHandle {C : Type} (conv : Conv C) (overwrite : Bool) (w : World C) (v : Val C) (s : Sched) :
+    Except Exc (World C × List (PoolEntry C) × List (Val C)) :=
+  if v.out.filetype = some "tex" then
+    match v.data with
+    | .path texP =>
+      let pdfP := pdfPathOf texP
+      match latexCore conv overwrite texP pdfP w v.out.changed with
+      | .error e => .error e
+      | .ok (w', chg', yielded) =>
+        let v' := { v with data := .path pdfP, out := { v.out with filetype := some "pdf", changed := some chg' } }
+        if chg' = false then .ok (w', [], [v'])                       -- pdf exists and unchanged: yielded now
+        else if s.ok then .ok (w', [⟨v', yielded, s.fin⟩], [])         -- launched, succeeds (iff the .tex file is there)
+        else .ok (w.note (.latex texP), [⟨v', false, s.fin⟩], [])      -- launched, fails: nothing is written
+    | _ => .error .outsideModel
+  else .ok (w, [], [v])
+
+/-- `LaTeXToPDF.run` on a flow of values with their schedules, starting with the pool `pool`; `verbose` only
+prints.  The values are listed in the order they are yielded. -/
+def latexRun {C : Type} (conv : Conv C) (overwrite : Bool) (verbose : Nat) :
+    World C → List (PoolEntry C) → List (Val C × Sched) → Except Exc (World C × List (Val C))
+  | w, pool, [] => .ok (w, (pool.filter (·.ok)).map (·.val))         -- wait for the rest, in launch order
+  | w, pool, (v, s) :: rest =>
+    let p := popReturned pool
+    match latexHandle conv overwrite w v s with
+    | .error e => .error e
+    | .ok (w', launched, now) =>
+      match latexRun conv overwrite verbose w' (p.1 ++ launched) rest with
+      | .error e => .error e
+      | .ok (w'', vs) => .ok (w'', p.2 ++ now ++ vs)
+
+/-- the reference without a pool: every value is dealt with completely before the next one -/
+def latexRunSeq {C : Type} (conv : Conv C) (overwrite : Bool) :
+    World C → List (Val C × Sched) → Except Exc (World C × List (Val C))
+  | w, [] => .ok (w, [])
+  | w, (v, s) :: rest =>
+    match latexHandle conv overwrite w v s with
+    | .error e => .error e
+    | .ok (w', launched, now) =>
+      match latexRunSeq conv overwrite w' rest with
+      | .error e => .error e
+      | .ok (w'', vs) => .ok (w'', now ++ (launched.filter (·.ok)).map (·.val) ++ vs)
+
 /-! ## `PDFToPNG.run` (`lena/output/pdf_to_png.py:84-107`) -/
 
 /-- lines 93-105: convert iff the image is missing, `overwrite`, or `output.changed` is true -/
